@@ -546,6 +546,35 @@ func lemmaIdxMono(segs []Segment, t1, t2 uint64, r1, r2 int) {}
 //@   ensures  (k*b+c)/b == k && (k*b+c)%b == c
 func lemmaDivMul(k, c, b int) {}
 
+// lemmaWrapsMono: instants split into whole loops and a remainder are ordered loop-first.
+//@ lemma lemmaWrapsMono
+//@   requires W >= 1 && 0 <= r1 && r1 < W && 0 <= r2 && r2 < W && w1*W+r1 <= w2*W+r2
+//@   ensures  w1 <= w2 && (w1 == w2 ==> r1 <= r2)
+func lemmaWrapsMono(w1, r1, w2, r2, W int) {}
+
+// lemmaNrOrder: segment numbers loops*N+index are ordered like (loops, index) pairs.
+//@ lemma lemmaNrOrder
+//@   requires N >= 1 && 0 <= i1 && i1 < N && 0 <= i2 && i2 < N && (w1 < w2 || (w1 == w2 && i1 <= i2))
+//@   ensures  w1*N+i1 <= w2*N+i2
+func lemmaNrOrder(w1, i1, w2, i2, N int) {}
+
+// lemmaRoll: moving whole loops out of a remainder does not change the instant.
+//@ lemma lemmaRoll
+//@   requires W >= 1 && t >= 0
+//@   ensures  (w+t/W)*W + t%W == w*W + t && 0 <= t%W && t%W < W && t/W >= 0
+func lemmaRoll(w, t, W int) {}
+
+// lemmaDivMulImp: lemmaDivMul in implication form (usable where the premise holds only on some paths).
+//@ lemma lemmaDivMulImp
+//@   ensures  k >= 0 && 0 <= c && c < b ==> (k*b+c)/b == k && (k*b+c)%b == c
+func lemmaDivMulImp(k, c, b int) {}
+
+// specNowTicks: the instant "now + availabilityTimeOffset" in media ticks since
+// availabilityStartTime, as the window arithmetic sees it (whole loops plus the tick-rounded rest).
+func specNowTicks(a *asset, rep *RepData, wt wrapTimes, atoMS int) int {
+	return wt.nowWraps*wrapDurOf(a, rep) + wt.nowRelMS*rep.MediaTimescale/1000 + atoMS*rep.MediaTimescale/1000
+}
+
 // lemmaGapFree: segment n+1 starts exactly where segment n ends, also across a loop wrap.
 //@ lemma lemmaGapFree
 //@   requires a != nil && wfRep(rep) && loopExact(a, rep) && 0 <= n
@@ -660,6 +689,9 @@ func nrListed(entries []*m.S, n int) int {
 //@ func (*asset).generateTimelineEntries
 //@   nowrap assumed
 //@   requires a != nil && a.Reps != nil && a.Reps[repID] != nil && wfRep(a.Reps[repID]) && orderedRep(a.Reps[repID]) && loopExact(a, a.Reps[repID]) && wfWrapTimes(a, wt) && 0 <= atoMS && atoMS <= 86400000
+//@   use      lemmaWrapDurIsRepDur(a, a.Reps[repID])
+//@   use      lemmaDivMul(0, 0, len(a.Reps[repID].Segments))
+//@   use      lemmaRoll(wt.nowWraps, wt.nowRelMS*a.Reps[repID].MediaTimescale/1000 + atoMS*a.Reps[repID].MediaTimescale/1000, repDur(a.Reps[repID]))
 //@   ensures  ts: result.mediaTimescale == uint32(a.Reps[repID].MediaTimescale)
 //@   ensures  none: result.lsi.nr == -1 <==> result.startNr == -1
 //@   ensures  range: result.startNr >= 0 ==> result.startNr <= result.lsi.nr
@@ -669,6 +701,24 @@ func nrListed(entries []*m.S, n int) int {
 //@   ensures  lastSegInfo: result.lsi.nr >= 0 ==> result.lsi.startTime == uint64(specStart(a, a.Reps[repID], result.lsi.nr)) && result.lsi.dur == specDur(a.Reps[repID], result.lsi.nr) && result.lsi.timescale == uint64(a.Reps[repID].MediaTimescale)
 //@   allocates
 //@   loop 1 use-entry lemmaDivMul(wt.startWraps, relStartIdx, nrSegs)
+//@   loop 1 use-entry lemmaDivMul(wt.nowWraps, relNowIdx, nrSegs)
+//@   loop 1 use-entry lemmaDivMulImp(wt.nowWraps, relNowIdx+1, nrSegs)
+//@   loop 1 use-entry lemmaDivMul(wt.nowWraps+1, 0, nrSegs)
+//@   loop 1 invariant nr <= nowNr+1 || nr == se.startNr+1
+//@   loop 1 invariant loopTicks: int(wrapDur) == wrapDurOf(a, rep) && relNowTime < wrapDur && nowNr == wt.nowWraps*nrSegs + relNowIdx && 0 <= relNowIdx && relNowIdx < nrSegs && wt.nowWraps >= 0
+//@   loop 1 invariant rolled: wt.nowWraps*int(wrapDur) + int(relNowTime) == specNowTicks(a, rep, old(wt), atoMS) || (wt.nowWraps+1)*int(wrapDur) + int(relNowTime) == specNowTicks(a, rep, old(wt), atoMS)
+//@   loop 1 invariant inLoop: relNowTime >= segs[0].EndTime ==> specNowTicks(a, rep, old(wt), atoMS) == wt.nowWraps*int(wrapDur) + int(relNowTime)
+//@   loop 1 invariant inLoopIdx: relNowTime >= segs[0].EndTime ==> segs[relNowIdx].EndTime <= relNowTime && (relNowIdx+1 < nrSegs ==> segs[relNowIdx+1].EndTime > relNowTime)
+//@   loop 1 invariant prevLoop: relNowTime < segs[0].EndTime ==> specNowTicks(a, rep, old(wt), atoMS) == (wt.nowWraps+1)*int(wrapDur) + int(relNowTime) && relNowIdx == nrSegs-1
+//@   exit 2 requires edgeNr: lsi.nr == max(se.startNr, nowNr)
+//@   exit 2 requires edgeHasEnded: segs[0].StartTime == 0 ==> specEnd(a, rep, nowNr) <= specNowTicks(a, rep, old(wt), atoMS)
+//@   loop 1 invariant nextNr: relNowIdx+1 == nrSegs ==> nowNr+1 == (wt.nowWraps+1)*nrSegs+0
+//@   loop 1 invariant nextInLoop: relNowIdx+1 < nrSegs ==> (nowNr+1)/len(rep.Segments) == wt.nowWraps && (nowNr+1)%len(rep.Segments) == relNowIdx+1
+//@   loop 1 invariant nextAfterWrap: relNowIdx+1 == nrSegs ==> (nowNr+1)/len(rep.Segments) == wt.nowWraps+1 && (nowNr+1)%len(rep.Segments) == 0
+//@   exit 2 requires nextInLoopHasNotEnded: segs[0].StartTime == 0 && relNowIdx+1 < nrSegs ==> specNowTicks(a, rep, old(wt), atoMS) < specEnd(a, rep, nowNr+1)
+//@   exit 2 requires nextAfterWrapNr: relNowIdx+1 == nrSegs ==> (nowNr+1)/len(rep.Segments) == wt.nowWraps+1 && (nowNr+1)%len(rep.Segments) == 0
+//@   exit 2 requires nextAfterWrapHasNotEnded: segs[0].StartTime == 0 && relNowIdx+1 == nrSegs ==> specNowTicks(a, rep, old(wt), atoMS) < specEnd(a, rep, nowNr+1)
+//@   exit 1 requires noneEnded: segs[0].StartTime == 0 ==> specNowTicks(a, rep, old(wt), atoMS) < specEnd(a, rep, 0)
 //@   loop 1 use-entry lemmaWrapDurIsRepDur(a, rep)
 //@   loop 1 use lemmaGapFree(a, rep, nr-1)
 //@   loop 1 invariant lsi.nr == nr-1 && lsi.startTime == uint64(specStart(a, rep, nr-1)) && lsi.dur == specDur(rep, nr-1) && d == lsi.dur && lsi.timescale == uint64(rep.MediaTimescale)
